@@ -98,6 +98,19 @@ func saltAttributes(page string, salt int) string {
 			page = page[:i] + repl + page[i+len(tag):]
 		}
 	}
+	// vocabulary names that are new to the process as well (item types in both scheme spellings, item
+	// properties, meta properties, link relations): tables that are filled lazily per name are written
+	// during the concurrent phase
+	v := fmt.Sprint(salt)
+	extra := `<div itemscope itemtype="https://schema.org/Article` + v + `"><span itemprop="name` + v + `">n</span></div>` +
+		`<div itemscope itemtype="https://schema.org/Person?v=` + v + `"><span itemprop="name">m</span></div>` +
+		`<div itemscope itemtype="http://schema.org/Thing` + v + `"><a rel="r` + v + `" href="/r">r</a></div>`
+	if i := strings.LastIndex(page, "</body>"); i >= 0 {
+		page = page[:i] + extra + page[i:]
+	}
+	if i := strings.Index(page, "</head>"); i >= 0 {
+		page = page[:i] + `<meta property="og:x` + v + `" content="c"><meta name="n` + v + `" content="c">` + page[i:]
+	}
 	return page
 }
 
